@@ -128,6 +128,19 @@ func runJanitorCase(res *result, r rng, jc janCase, idx int64) {
 		if tk.Period != jc.interval {
 			bad("janitor ticker period differs from the cleanup interval", fmt.Sprintf("period %d, interval %d", tk.Period, jc.interval))
 		}
+		// the callback in force may be swapped after construction: the janitor must use the current one
+		curID := 0
+		if jc.sp.Callback != nil {
+			curID = 1
+		}
+		switch r.intn(4) {
+		case 0:
+			c.SetEvictedCallback(led.cb(2))
+			curID = 2
+		case 1:
+			c.SetEvictedCallback(nil)
+			curID = 0
+		}
 		// entries with TTLs spread over several intervals; nobody touches a key afterwards
 		type ent struct {
 			k int
@@ -212,11 +225,21 @@ func runJanitorCase(res *result, r rng, jc janCase, idx int64) {
 				wantCb[e.v] = e.k
 			}
 		}
-		if jc.sp.Callback != nil {
+		if curID == 0 {
+			led.mu.Lock()
+			n := len(led.entries)
+			led.mu.Unlock()
+			if n != 0 {
+				bad("janitor fires a callback although none is in force", fmt.Sprintf("%d callbacks after SetEvictedCallback(nil) / without callback", n))
+			}
+		} else {
 			led.mu.Lock()
 			got := map[any]int{}
 			for _, le := range led.entries {
 				got[le.V]++
+				if le.CbID != curID {
+					bad("janitor fires a callback that is not the one in force", fmt.Sprintf("callback #%d fired, #%d is in force (set with SetEvictedCallback)", le.CbID, curID))
+				}
 				if k, ok := wantCb[le.V]; ok && k != le.K {
 					bad("janitor callback pairs a value with another key", fmt.Sprintf("(k%d,%s)", le.K, fmtVal(le.V)))
 				}
